@@ -246,6 +246,24 @@ def gen_fuzz_cases(r, tier, sds):
         if s[2] == "dotnet":
             for ops, kind in M.dotnet_blob_cases(r, s[1], 120 if quick else 500):
                 add(s[0], ops, s[2], kind)
+    # (b4) first / middle / last entry of every RVA- or offset-driven table aimed at a place that maps nowhere (a loop that does not advance on that
+    #      branch never ends: the per-case timeout reports it)
+    for s in sds:
+        if len(s[1]) > (120000 if quick else 3000000):
+            continue
+        for ops, kind in M.unmapped_cases(r, s[1], s[2], s[3]):
+            add(s[0], ops, s[2], kind)
+    # (b5) rows of the .NET metadata tables (#~ stream): indices 0 / last / last+1 / max in the first, middle and last row; rows made to share an owner
+    #      with one column invalid. The one large sample with multi-row GenericParam / NestedClass / MethodSpec tables is used for those tables only.
+    for s in sds:
+        if s[2] == "dotnet":
+            for ops, kind in M.dotnet_table_cases(r, s[1], 4 if quick else 12):
+                add(s[0], ops, s[2], kind)
+    big = os.path.join(core.REPO, "tests/data/756684f4017ba7e931a26724ae61606b16b5f8cc84ed38a260a34e50c5016f59")
+    if quick and os.path.exists(big) and not any(s[0] == big for s in sds):
+        bd = open(big, "rb").read()
+        for ops, kind in M.dotnet_table_cases(r, bd, 4, only=("GenericParam", "GenericParamConstraint", "NestedClass", "MethodSpec", "InterfaceImpl", "ManifestResource")):
+            add(big, ops, "dotnet", kind)
     # (c) truncation at every structure boundary of every seed (all deltas for the smallest seed of each format)
     for fmt in fmts:
         small = min(per_fmt[fmt], key=lambda s: len(s[1]))
